@@ -7,7 +7,7 @@ earlier unifications that are held open.  Oracle: reference unifier (vlib.terms.
 import itertools
 
 from vlib import ch
-from vlib.terms import (Decoder, runify, resolve, show, Cyclic, slot_alphabet_sizes, LEAVES, INNER, ALL)
+from vlib.terms import (Decoder, runify, resolve, show, Cyclic, CyclicBinding, slot_alphabet_sizes, LEAVES, INNER, ALL)
 from yldprolog.engine import unify, get_value, Variable
 
 PROPERTY = 'C02'
@@ -97,6 +97,14 @@ def make_body(l1, l2, hist, info):
         names = {}
         before = [show(v, names) for v in vs]
         outcomes = []
+        try:
+            return _observe(info, hist, vals, nc, prepared, t1, t2, r1, r2, vs, s2, s_hist, before, opened)
+        except (RecursionError, CyclicBinding) as e:
+            ch.note(info, 'the engine built a cyclic binding although the terms are finite and unifiable without one: %s', type(e).__name__)
+            return ch.VIOLATED
+
+    def _observe(info, hist, vals, nc, prepared, t1, t2, r1, r2, vs, s2, s_hist, before, opened):
+        outcomes = []
         for oi, (x, y) in enumerate(((t1, t2), (t2, t1))):
             n = 0
             obs = None
@@ -170,6 +178,7 @@ def units(tier, seed):
         add('a.LP-LP.mixed-constants', [['LP'], MIX], [['LP'], MIX], [], {'k0': 0, 'k3': 0}, 200)
         ZER = ['F0', 'F1', 'v0', 'A']
         add('a.zero-arity', [ZER, ['v0', 'int', 'F0']], [ZER, ['v0', 'int', 'F0']], [], {}, 200)
+        add('a.h1.v0=v1.leaf-leaf', [LEAVES], [LEAVES], [([['v0']], [['v1']])], {'k0': 0, 'k1': 0}, 200)
         add('a.h1.v0=v1.F2-F2.small', [['F2'], SMALL], [['F2'], SMALL], [([['v0']], [['v1']])],
             {'k0': 0, 'k1': 0, 'k2': 0, 'k5': 0}, 200)
     else:
